@@ -11,6 +11,7 @@ import logging
 from dataclasses import dataclass
 from typing import TYPE_CHECKING
 
+from happysimulator.components.queue import QueueNotifyEvent
 from happysimulator.components.queue_policy import FIFOQueue, QueuePolicy
 from happysimulator.components.queued_resource import QueuedResource
 from happysimulator.core.event import Event
@@ -139,6 +140,9 @@ class ShiftedServer(QueuedResource):
         # On first real event, schedule the first shift change
         if not self._initialized:
             self._initialized = True
+            # The capacity computed in __init__ is the one at t=0; the first
+            # request may arrive after one or more shift boundaries.
+            self._current_capacity = self.schedule.capacity_at(self.now.to_seconds())
             next_event = self._schedule_next_shift()
             result = super().handle_event(event)
             if next_event and isinstance(result, list):
@@ -163,7 +167,16 @@ class ShiftedServer(QueuedResource):
 
         # Schedule the next shift change (self-perpetuating)
         next_event = self._schedule_next_shift()
-        return [next_event] if next_event else []
+        result: list[Event] = [next_event] if next_event else []
+
+        # Requests that queued up while no worker was free are not polled by
+        # anyone else (the queue only notifies its driver when it was empty):
+        # wake the driver so waiting work starts as soon as the shift does.
+        if self.has_capacity() and self.depth > 0:
+            result.append(
+                QueueNotifyEvent(time=self.now, target=self._driver, queue_entity=self._queue)
+            )
+        return result
 
     def _schedule_next_shift(self) -> Event | None:
         """Schedule only the next transition event."""
